@@ -283,3 +283,26 @@ Print Assumptions C12_deleted_keys_exact.
 
 Example C12_physical_history_example : ltac:(let t := type of pa_history_trace in exact t).
 Proof. exact pa_history_trace. Qed.
+
+(** *** The ORDER of the physical writes of a deletion (PruneAlgoFacts14): the effective write list
+    of DeleteVersionsTo is exactly [spec_elog_range], a function of the forest alone - for every
+    version: the orphans of tree v (nodes absent from tree v+1) in the pre-order of tree v, each
+    deleted under the key it is stored under, then the root entry of an empty / reference root,
+    then the re-keying [set (v,0); del (v,1)] when tree v+1 keeps the root of v - whatever the flush
+    schedule.  This list is what the correspondence check compares with the real library (wprune). *)
+From IAVL Require Import PruneAlgoFacts14.
+
+Theorem C12_deletion_effective_writes_exact :
+  forall (H : bytes -> bytes), (forall x, length (H x) = 32%nat) ->
+  forall (s : mstate) (r : list Z) (sched : list bool) (n : Z),
+    store_ok H s -> forest_bounds (forest s) -> rekey_ok r (forest s) -> n < latest_version s ->
+    forest s <> [] ->
+    (exists st' fl,
+       prune_forest H true r (forest s) sched n =
+         POk (st', spec_elog_range (Z.to_nat (n + 1 - first_of (forest s))) (forest s) r, fl))
+    \/ collision H.
+Proof. exact prune_elog. Qed.
+Print Assumptions C12_deletion_effective_writes_exact.
+
+Example C12_effective_writes_example : ltac:(let t := type of pe_whole in exact t).
+Proof. exact pe_whole. Qed.
